@@ -590,6 +590,7 @@ func (s *vShape) add(k, v string) { s.toks = append(s.toks, k+"="+vEnc(strings.T
 
 func vC10DataShape(s *vShape, p string, data json.RawMessage) {
 	s.add(p+".data", b01(len(data) > 0))
+	s.add(p+".dvalid", b01(json.Valid(data)))
 	var d MessageClientMessageData
 	if err := json.Unmarshal(data, &d); err != nil {
 		s.add(p+".dj", "bad")
@@ -821,6 +822,7 @@ func vC10Shape(template string, pad int, binary bool) (toks []string, ok bool) {
 		if a := in.AddSession; a != nil {
 			common("i.add", &a.CommonSessionInternalClientMessage)
 			s.add("i.add.opts", b01(a.Options != nil))
+			s.add("i.add.uvalid", b01(len(a.User) == 0 || json.Valid(a.User)))
 			s.add("i.add.flags", strconv.Itoa(int(a.Flags)))
 			if a.InCall != nil {
 				s.add("i.add.incall", strconv.Itoa(*a.InCall))
@@ -857,6 +859,7 @@ func vC10Shape(template string, pad int, binary bool) (toks []string, ok bool) {
 		if t.Value != nil {
 			s.add("t.value", string(t.Value))
 		}
+		s.add("t.vvalid", b01(len(t.Value) == 0 || json.Valid(t.Value)))
 		s.add("t.ttl", strconv.FormatInt(int64(t.TTL), 10))
 		if t.TTL > 0 && t.TTL < time.Hour {
 			amb = true // would expire while the case runs
@@ -980,6 +983,11 @@ func vC10Gen(e *vEnv, r *vRand) []vCase {
 					doc, pad, binary := vC10GenDoc(rr)
 					if strings.Contains(doc, phDialout) && st != "dialout" {
 						doc = strings.ReplaceAll(doc, phDialout, "m7")
+					}
+					if st == "federated" && pad > maxMessageSize-512 && pad <= maxMessageSize {
+						// forwarded messages are serialised again and can then exceed the read limit
+						// of the federation target, which tears the link down (see docs/notes/C10.md)
+						pad = maxMessageSize - 1024
 					}
 					if op, ok := vC10MsgOp(doc, pad, binary); ok {
 						ops = append(ops, op)
@@ -1152,8 +1160,14 @@ func (x *vC10Exec) msg(f []string) string {
 	if shape["frame"] == "bin" {
 		mt = websocket.BinaryMessage
 	}
+	wasFed := w.senderFederated()
 	w.snd.send(mt, []byte(doc)) // nolint
 	snd, by, ok := w.barrier()
+	if wasFed && ok && !w.senderFederated() {
+		// the federation client was detached (leave, local join, bye): what the target still
+		// answers arrives without a marker to wait for
+		w.idle(w.snd, &snd, 40*time.Millisecond)
+	}
 	mcuKind := w.mcu && (vC10McuTypes[shape["m.dtype"]] || vC10McuTypes[shape["c.dtype"]])
 	if mcuKind && ok {
 		// MCU work runs in goroutines of its own: allow late replies
